@@ -11,6 +11,9 @@ V = "/verif"
 ids = a.ids or sorted(os.listdir(f"{V}/seeded"))
 assert subprocess.run("git -C /repo status --porcelain", shell=True, capture_output=True, text=True).stdout.strip() == "", "/repo not clean"
 results = {}
+import shutil, tempfile
+keep = tempfile.mkdtemp(prefix="evidence_keep_")          # evidence written under a seeded change is not evidence
+for f in os.listdir(f"{V}/evidence"): shutil.copy(f"{V}/evidence/{f}", keep)
 for sid in ids:
     d = f"{V}/seeded/{sid}"
     meta = json.load(open(f"{d}/meta.json"))
@@ -30,4 +33,6 @@ for sid in ids:
             results[f"{sid}:{p}"] = c.returncode
     finally:
         subprocess.run("git -C /repo checkout -- . && git -C /repo clean -fdq", shell=True)
+for f in os.listdir(keep): shutil.copy(f"{keep}/{f}", f"{V}/evidence/{f}")
+shutil.rmtree(keep)
 json.dump(results, open(f"{V}/.seeded_last.json", "w"), indent=1)
